@@ -3,7 +3,8 @@ import chan_common as cc
 
 def run(tier, seed):
     return cc.run_check("C02", tier, seed,
-        mc_cfgs=(["Forward.cfg"], ["Forward.cfg"]), mc_module="Forward", mutant_cfgs=("ForwardMutant.cfg",),
+        mc_cfgs=(["Forward.cfg", "ForwardN:ForwardN.cfg"], ["Forward.cfg", "ForwardN:ForwardN.cfg"]), mc_module="Forward",
+        mutant_cfgs=("ForwardMutant.cfg", "ForwardN:ForwardNReplace.cfg", "ForwardN:ForwardNNone.cfg"),
         mc_actions=("DownFulfil", "DownFail", "UpPreimageComplete", "DownRaaSubmit", "DownRaaComplete", "UpClaim", "UpFail", "Crash"),
         profiles=[("default", 3, 120), ("async", 3, 150), ("crash", 3, 100)],
         thorough_profiles=[("default", 3, 2000), ("async", 3, 3000), ("crash", 3, 2000)],
